@@ -144,20 +144,33 @@ func TestL6Loopback(t *testing.T) {
 	skipIfLowerLayerFailed(t)
 	name := t.Name()
 	env := runEnv{real: true}
+	baseOK := map[string]bool{} // dial kind -> a configuration without the shared listener connected
 	for ci, cfg := range e2eConfigs {
 		// pre-flight: is this configuration usable in this environment at all?
 		hosts, dial, err := newE2EPair(cfg, 1)
+		connectFailed := false
 		if err == nil {
 			ctx, cancel := context.WithTimeout(context.Background(), 30*time.Second)
 			err = hosts[0].Connect(ctx, peer.AddrInfo{ID: hosts[1].ID(), Addrs: dial})
+			connectFailed = err != nil && ctx.Err() == nil
 			cancel()
 			hosts[0].Close()
 			hosts[1].Close()
 		}
 		if err != nil {
+			if cfg.shared && connectFailed && baseOK[cfg.dialTo] {
+				// differential: the same stack connects when the listener is not shared, and this
+				// is not a timeout: the bytes replayed by the shared listener's peek did not
+				// reach the upgrader intact
+				t.Errorf("configuration %s: the hosts listen, the same stack without the shared TCP listener connects, but here the handshake fails: %v", cfg.name, err)
+				continue
+			}
 			t.Logf("configuration %s is not usable here, skipped: %v", cfg.name, err)
 			stats.Label(name, "config-unavailable:"+cfg.name)
 			continue
+		}
+		if !cfg.shared {
+			baseOK[cfg.dialTo] = true
 		}
 		t.Run(fmt.Sprintf("%d", ci), func(t *testing.T) {
 			hx.Check(t, 8, 1600, 0, func(rt *rapid.T) {
